@@ -206,6 +206,31 @@ fn lower_camel(name: &str) -> String {
     words_of_field(name).iter().enumerate().map(|(i, w)| if i == 0 { w.clone() } else { cap(w) }).collect()
 }
 
+/// C01: every declared function and exported type name is a legal identifier and no reserved word
+fn declared_names_legal(files: &BTreeMap<String, String>) -> Result<String, String> {
+    const RESERVED: [&str; 46] = ["break", "case", "catch", "class", "const", "continue", "debugger", "default", "delete", "do", "else", "enum", "export", "extends", "false", "finally", "for", "function", "if", "import",
+        "in", "instanceof", "new", "null", "return", "super", "switch", "this", "throw", "true", "try", "typeof", "var", "void", "while", "with", "implements", "interface", "let", "package", "private", "protected", "public", "static", "yield", "await"];
+    let mut n = 0;
+    for (f, text) in files {
+        if !f.ends_with(".ts") { continue; }
+        for l in text.lines() {
+            let t = l.trim_start();
+            let mut rest = None;
+            for pre in ["export async function ", "export function ", "async function ", "function ", "export interface ", "export type ", "export const ", "export enum ", "export class "] {
+                if let Some(r) = t.strip_prefix(pre) { rest = Some(r); break; }
+            }
+            if let Some(rest) = rest {
+                let name: String = rest.chars().take_while(|c| !['(', '<', ' ', '=', ':', '{'].contains(c)).collect();
+                let ident = name.chars().next().map_or(false, |c| c.is_alphabetic() || c == '_' || c == '$') && name.chars().all(|c| c.is_alphanumeric() || c == '_' || c == '$');
+                if !ident { return Err(format!("{}: declared name `{}` is not an identifier (`{}`)", f, name, t.chars().take(80).collect::<String>())); }
+                if RESERVED.contains(&name.as_str()) || name == "arguments" || name == "eval" { return Err(format!("{}: declared name `{}` is a reserved word", f, name)); }
+                n += 1;
+            }
+        }
+    }
+    Ok(format!("{} declarations", n))
+}
+
 // ---- serde's renaming rules, transcribed from the serde documentation (oracle)
 fn words_of_field(f: &str) -> Vec<String> { f.split('_').filter(|w| !w.is_empty()).map(|w| w.to_string()).collect() }
 fn words_of_variant(v: &str) -> Vec<String> {
@@ -252,6 +277,7 @@ fn main() {
         // parameter-name shapes: digits after underscores, doubled / leading underscores, one-letter words, non-ASCII
         let shapes = ["pos_2d", "size_3d_px", "on_2nd_pass", "line_1_start", "v_2", "_lead", "dou__ble", "x", "http_2_server", "a_b_c", "über_wert", "trailing_", "user_id", "r#type", "r#in_place"];
         src.push_str(&format!("#[tauri::command]\npub fn shapes({}) -> u32 {{ 0 }}\n", shapes.iter().map(|n| format!("{}: u32", n)).collect::<Vec<_>>().join(", ")));
+        src.push_str("#[tauri::command]\npub fn r#move(first_arg: String, r#type: u32, on_event: Channel<u32>) -> u32 { 0 }\n");
         let dir = root.join("inject/src");
         write_files(&dir, &[("lib.rs".to_string(), src)]);
         for (i, inj) in injected.iter().enumerate() {
@@ -282,6 +308,23 @@ fn main() {
                 }
                 Ok("ok".into())
             });
+            rep.case("invoke_keys_in_generated_bindings", &format!("fn r#move(first_arg: String, r#type: u32, on_event: Channel<u32>) mode={}", mode), &|| {
+                let files = generate(&dir, &root.join(format!("inject/out_{}", mode)), mode)?;
+                let t = files.get("types.ts").ok_or("no types.ts")?;
+                let mut keys = object_keys(t, "MoveParams", mode == "zod").ok_or(format!("MoveParams (command r#move) not declared in types.ts ({})", mode))?;
+                if mode == "zod" {
+                    // the channel key lives in the interface that extends the inferred type
+                    let head = "export interface MoveParams extends";
+                    let st = t.find(head).ok_or("no `export interface MoveParams extends ..` carrying the channel")?;
+                    let blk = &t[st..st + t[st..].find("\n}").unwrap_or(t.len() - st)];
+                    if blk.contains("onEvent") { keys.push("onEvent".to_string()); }
+                }
+                keys.sort();
+                if keys != ["firstArg", "onEvent", "type"] { return Err(format!("keys {:?}, expected [firstArg, onEvent, type]", keys)); }
+                Ok(format!("{:?}", keys))
+            });
+            rep.case("generated_files_are_lexically_wellformed", &format!("project=inject mode={}", mode), &|| lexical_wellformed(&generate(&dir, &root.join(format!("inject/out_{}", mode)), mode)?));
+            rep.case("declared_function_names_are_legal", &format!("project=inject mode={}", mode), &|| declared_names_legal(&generate(&dir, &root.join(format!("inject/out_{}", mode)), mode)?));
             rep.case("invoke_keys_follow_tauri_camel_case", &format!("fn shapes({}) mode={}", shapes.join(", "), mode), &|| {
                 let files = generate(&dir, &root.join(format!("inject/out_{}", mode)), mode)?;
                 let t = files.get("types.ts").ok_or("no types.ts")?;
@@ -318,6 +361,7 @@ fn main() {
             ("rename_then_doc_and_allow", "#[serde(rename = \"documented\")]\n    /// a doc comment\n    #[allow(dead_code)]", Some("documented")),
             ("rename_upper", "#[serde(rename = \"HTTPCode\")]", Some("HTTPCode")),
             ("r#type", "", Some("type")),
+            ("same_name", "#[serde(rename = \"same_name\")]", Some("same_name")),
             ("rename_digit", "#[serde(rename = \"2fa\")]", Some("2fa")),
             ("rename_space", "#[serde(rename = \"display name\")]", Some("display name")),
         ];
@@ -351,6 +395,8 @@ fn main() {
             for v in variants { ebody.push_str(&format!("    {},\n", v)); lits.push(if conv.is_empty() { v.to_string() } else { apply_rule(conv, v, true) }); }
             ebody.push_str("    #[serde(rename = \"explicit\")]\n    Renamed,\n");
             lits.push("explicit".to_string());
+            ebody.push_str("    #[serde(rename = \"SameName\")]\n    SameName,\n");
+            lits.push("SameName".to_string());
             ebody.push_str("    #[serde(rename = \"HTTP\")]\n    Proto,\n");
             lits.push("HTTP".to_string());
             ebody.push_str("    #[serde(rename = \"on\")]\n    #[serde(alias = \"enabled\")]\n    Active,\n");
@@ -359,6 +405,12 @@ fn main() {
             enums.push((ename.clone(), lits));
             cmd_params.push(format!("r{}: {}, k{}: {}", ci, sname, ci, ename));
         }
+        // other container attributes whose names merely start like rename_all
+        src.push_str("#[derive(Serialize, Deserialize)]\n#[serde(rename_all_fields = \"camelCase\")]\npub enum FieldsOnly { FastPath, SlowPath }\n");
+        enums.push(("FieldsOnly".to_string(), vec!["FastPath".to_string(), "SlowPath".to_string()]));
+        src.push_str("#[derive(Serialize, Deserialize)]\n#[serde(deny_unknown_fields, bound = \"\", rename_all_fields = \"SCREAMING_SNAKE_CASE\", rename_all = \"kebab-case\")]\npub enum Both { FastPath, SlowPath }\n");
+        enums.push(("Both".to_string(), vec!["fast-path".to_string(), "slow-path".to_string()]));
+        cmd_params.push("fo: FieldsOnly, bo: Both".to_string());
         src.push_str("#[derive(Debug, Clone)]\npub struct NotSerde { pub x: u32 }\n");
         src.push_str(&format!("#[tauri::command]\npub fn take({}) -> u32 {{ 0 }}\n", cmd_params.join(", ")));
         let dir = root.join("serde/src");
@@ -404,6 +456,7 @@ fn main() {
             }
             let tys: Vec<&str> = structs.iter().map(|(n, _)| n.as_str()).chain(enums.iter().map(|(n, _)| n.as_str())).collect();
             rep.case("type_references_resolve", &format!("project=serde mode={}", mode), &|| references_resolve(files.as_ref().map_err(|e| e.clone())?, &tys));
+            rep.case("declared_function_names_are_legal", &format!("project=serde mode={}", mode), &|| declared_names_legal(files.as_ref().map_err(|e| e.clone())?));
         }
         // C10: the z.object / z.enum of an item has the keys / members of its plain declaration
         let none = generate(&dir, &root.join("serde/out_none"), "none");
@@ -454,6 +507,8 @@ fn main() {
             // distinct names whose natural listener names coincide
             ("c-user-login", "app.emit(\"c-user-login\", 1u32).ok();"), ("c_user_login", "app.emit(\"c_user_login\", 1u32).ok();"),
             ("c:user:login", "app.emit(\"c:user:login\", 1u32).ok();"), ("CUserLogin", "app.emit(\"CUserLogin\", 1u32).ok();"), ("c-user-login2", "app.emit(\"c-user-login2\", 1u32).ok();"),
+            // functions carrying cfg / other attributes and qualifiers
+            ("f-cfg-not-test", ""), ("f-cfg-feature", ""), ("f-cfg-any", ""), ("f-attrs", ""), ("f-async-unsafe", ""), ("f-generic-payload", ""), ("f-private", ""),
         ];
         let extra_fns = "pub fn notify<R: tauri::Runtime, E: Emitter<R>>(app: &E) { app.emit(\"g-generic\", 1u32).ok(); }\n\
             pub fn arc(window: std::sync::Arc<tauri::WebviewWindow>) { window.emit(\"g-arc\", 1u32).ok(); }\n\
@@ -463,7 +518,14 @@ fn main() {
             #[derive(Serialize, Deserialize, Clone)]\npub struct Player { pub id: u32 }\n\
             pub fn announce<'a>(app: &tauri::AppHandle, winner: Option<&'a Player>) { app.emit(\"p-lifetime-opt\", winner).ok(); }\n\
             pub fn levels(app: &tauri::AppHandle) { let levels: Vec<&'static str> = vec![]; app.emit(\"p-lifetime-vec\", &levels).ok(); }\n\
-            pub fn roster(app: &tauri::AppHandle, players: Vec<Player>) { app.emit(\"p-vec-struct\", players).ok(); }\n";
+            pub fn roster(app: &tauri::AppHandle, players: Vec<Player>) { app.emit(\"p-vec-struct\", players).ok(); }\n\
+            #[cfg(not(test))]\npub fn only_real(app: &tauri::AppHandle) { app.emit(\"f-cfg-not-test\", 1u32).ok(); }\n\
+            #[cfg(feature = \"latest-protocol\")]\npub fn feat(app: &tauri::AppHandle) { app.emit(\"f-cfg-feature\", 1u32).ok(); }\n\
+            #[cfg(any(test, debug_assertions))]\npub fn dbg(app: &tauri::AppHandle) { app.emit(\"f-cfg-any\", 1u32).ok(); }\n\
+            #[allow(dead_code)]\n#[inline]\n#[doc = \"test helper\"]\npub(crate) fn attrs(app: &tauri::AppHandle) { app.emit(\"f-attrs\", 1u32).ok(); }\n\
+            pub async unsafe fn odd_qualifiers(app: tauri::AppHandle) { app.emit(\"f-async-unsafe\", 1u32).ok(); }\n\
+            pub fn generic_payload<T: Serialize + Clone>(app: &tauri::AppHandle, t: T) { app.emit(\"f-generic-payload\", t).ok(); }\n\
+            fn private_fn(app: &tauri::AppHandle) { app.emit(\"f-private\", 1u32).ok(); }\n";
         let body: String = sites.iter().map(|(_, s)| format!("    {}\n", s)).collect();
         let src = format!("{}use tauri::Emitter;\npub struct Holder {{ pub app: tauri::AppHandle }}\nimpl Holder {{ fn handle(&self) -> tauri::AppHandle {{ todo!() }} }}\n\
             #[tauri::command]\npub async fn run(app: tauri::AppHandle, window: tauri::Window, webview: tauri::WebviewWindow, self_like: Holder, flag: bool) -> Result<(), String> {{\n{}}}\n\
@@ -483,6 +545,7 @@ fn main() {
             let files = generate(&dir, &root.join(format!("emits/out_{}", mode)), mode);
             rep.case("generated_files_are_lexically_wellformed", &format!("project=emits mode={}", mode), &|| lexical_wellformed(files.as_ref().map_err(|e| e.clone())?));
             rep.case("type_references_resolve", &format!("project=emits mode={}", mode), &|| references_resolve(files.as_ref().map_err(|e| e.clone())?, &["Player", "Holder"]));
+            rep.case("declared_function_names_are_legal", &format!("project=emits mode={}", mode), &|| declared_names_legal(files.as_ref().map_err(|e| e.clone())?));
             rep.case("one_listener_per_event", &format!("project=emits mode={}", mode), &|| {
                 let files = files.as_ref().map_err(|e| e.clone())?;
                 let ev = files.get("events.ts").ok_or("no events.ts although the project emits events")?;
@@ -513,13 +576,19 @@ fn main() {
             "fn build_summary() -> Summary { todo!() }\n#[tauri::command]\npub fn finish(app: tauri::AppHandle) -> Summary { let update = build_summary(); app.emit(\"finished\", update.clone()).ok(); update }\n".to_string(),
             "#[tauri::command]\npub fn poll(update: Option<Summary>) -> Vec<Progress> { vec![] }\n".to_string(),
             "pub fn decoy_helper(update: Progress) -> Progress { update }\n".to_string(),
+            // one event name emitted at three sites that disagree about the payload: the merged listener must not depend on the order of the sites
+            "pub fn multi_a(app: &tauri::AppHandle, update: Progress) { app.emit(\"multi\", update).ok(); }\n".to_string(),
+            "pub fn multi_b(app: &tauri::AppHandle, update: Progress) { app.emit(\"multi\", update).ok(); }\n".to_string(),
+            "pub fn multi_c(app: &tauri::AppHandle, total: Summary) { app.emit(\"multi\", total).ok(); }\n".to_string(),
         ];
         let hdr = format!("{}use tauri::Emitter;\n", HDR);
         let layouts: Vec<(&str, Vec<(String, String)>)> = vec![
             ("one-file", vec![("lib.rs".to_string(), format!("{}{}", hdr, items.join("")))]),
             ("one-file-reversed", vec![("lib.rs".to_string(), format!("{}{}", hdr, items.iter().rev().cloned().collect::<Vec<_>>().join("")))]),
-            ("two-files", vec![("a.rs".to_string(), format!("{}{}{}{}", hdr, items[0], items[2], items[5])), ("b.rs".to_string(), format!("{}{}{}{}", hdr, items[1], items[3], items[4]))]),
-            ("two-files-swapped", vec![("b.rs".to_string(), format!("{}{}{}{}", hdr, items[5], items[2], items[0])), ("a.rs".to_string(), format!("{}{}{}{}", hdr, items[4], items[3], items[1]))]),
+            ("two-files", vec![("a.rs".to_string(), format!("{}{}{}{}{}{}", hdr, items[0], items[2], items[5], items[6], items[8])), ("b.rs".to_string(), format!("{}{}{}{}{}", hdr, items[1], items[3], items[4], items[7]))]),
+            ("two-files-swapped", vec![("b.rs".to_string(), format!("{}{}{}{}{}{}", hdr, items[8], items[5], items[2], items[0], items[6])), ("a.rs".to_string(), format!("{}{}{}{}{}", hdr, items[7], items[4], items[3], items[1]))]),
+            ("one-file-rotated", vec![("lib.rs".to_string(), format!("{}{}{}", hdr, items[4..].join(""), items[..4].join("")))]),
+            ("one-file-interleaved", vec![("lib.rs".to_string(), format!("{}{}", hdr, [8usize, 0, 6, 1, 2, 7, 3, 4, 5].iter().map(|i| items[*i].clone()).collect::<Vec<_>>().join("")))]),
             ("with-noise", vec![("lib.rs".to_string(), format!("{}// comment\n\n\n{}", hdr, items.iter().map(|s| format!("/* noise */\n{}\n\npub fn unrelated_{}() {{}}\n", s, s.len())).collect::<Vec<_>>().join("")))]),
         ];
         for mode in ["none", "zod"] {
@@ -641,26 +710,7 @@ fn main() {
             rep.case("type_references_resolve", &format!("project=modes mode={}", mname), &|| {
                 references_resolve(res.as_ref().map_err(|e| e.clone())?, &["Ping", "AllSkipped", "Item", "Level", "Holder"])
             });
-            rep.case("declared_function_names_are_legal", &format!("project=modes mode={}", mname), &|| {
-                let files = res.as_ref().map_err(|e| e.clone())?;
-                const RESERVED: [&str; 46] = ["break", "case", "catch", "class", "const", "continue", "debugger", "default", "delete", "do", "else", "enum", "export", "extends", "false", "finally", "for", "function", "if", "import",
-                    "in", "instanceof", "new", "null", "return", "super", "switch", "this", "throw", "true", "try", "typeof", "var", "void", "while", "with", "implements", "interface", "let", "package", "private", "protected", "public", "static", "yield", "await"];
-                let mut n = 0;
-                for (f, text) in files {
-                    for l in text.lines() {
-                        let t = l.trim_start();
-                        let rest = t.strip_prefix("export async function ").or_else(|| t.strip_prefix("export function ")).or_else(|| t.strip_prefix("async function ")).or_else(|| t.strip_prefix("function "));
-                        if let Some(rest) = rest {
-                            let name: String = rest.chars().take_while(|c| *c != '(' && *c != '<' && *c != ' ').collect();
-                            let ident = name.chars().next().map_or(false, |c| c.is_alphabetic() || c == '_' || c == '$') && name.chars().all(|c| c.is_alphanumeric() || c == '_' || c == '$');
-                            if !ident { return Err(format!("{}: function name `{}` is not an identifier", f, name)); }
-                            if RESERVED.contains(&name.as_str()) || name == "arguments" || name == "eval" { return Err(format!("{}: function name `{}` is a reserved word", f, name)); }
-                            n += 1;
-                        }
-                    }
-                }
-                Ok(format!("{} functions", n))
-            });
+            rep.case("declared_function_names_are_legal", &format!("project=modes mode={}", mname), &|| declared_names_legal(res.as_ref().map_err(|e| e.clone())?));
         }
     }
     // ============================================================ C11 / C15: validator attribute spellings, end to end in zod mode
@@ -673,6 +723,10 @@ fn main() {
             ("f_both", "#[validate(email, url)]", "String", true, true, vec![], vec![]),
             ("f_email_msg", "#[validate(email(message = \"bad mail\"))]", "String", true, false, vec![], vec![]),
             ("f_url_code", "#[validate(url(code = \"bad_url\"))]", "String", false, true, vec![], vec![]),
+            ("f_email_apostrophe", "#[validate(email(message = \"That doesn't look like an email\"))]", "String", true, false, vec![], vec![]),
+            ("f_url_quotes", "#[validate(url(message = \"it's \\\"bad\\\" \\\\ really\"))]", "String", false, true, vec![], vec![]),
+            ("f_len_apostrophe", "#[validate(length(min = 2, message = \"can't be that short\"))]", "String", false, false, vec![".min(2"], vec![]),
+            ("f_len_backslash_end", "#[validate(length(min = 2, max = 10, message = \"must end with a \\\\\"), url)]", "String", false, true, vec![".min(2", ".max(10"], vec![]),
             ("f_url_msg_len", "#[validate(url(message = \"bad link\"), length(max = 2048))]", "String", false, true, vec![".max(2048"], vec![]),
             ("f_email_len", "#[validate(email, length(max = 64))]", "String", true, false, vec![".max(64"], vec![]),
             ("f_len_then_email", "#[validate(length(min = 3), email)]", "String", true, false, vec![".min(3"], vec![]),
@@ -701,6 +755,7 @@ fn main() {
                 Ok(sch)
             });
         }
+        rep.case("generated_files_are_lexically_wellformed", "project=validators mode=zod", &|| lexical_wellformed(files.as_ref().map_err(|e| e.clone())?));
         // C15: bound tokens that parse as f64 but are not ordinary numbers, swapped bounds, empty lists — never a panic
         let odd = ["range(min = NaN, max = 100)", "range(min = 1, max = NaN)", "range(min = NaN, max = NaN)", "range(min = inf, max = 1)", "range(min = -inf, max = inf)", "range(min = infinity)",
             "range(min = 1e400, max = 2)", "range(min = 10, max = 1)", "length(min = 10, max = 1)", "length(min = 18446744073709551616)", "length(min = -1)", "range()", "length()", "email()", "range(min = , max = )",
@@ -714,6 +769,124 @@ fn main() {
                     match generate(&dir, &root.join(format!("odd{}/out_{}", i, mode)), mode) { Ok(f) => Ok(format!("{} files", f.len())), Err(e) => Ok(format!("Err: {}", e)) }
                 });
             }
+        }
+    }
+    // ============================================================ C05: the documented type table, end to end, at every translation site
+    {
+        // (field, Rust type, TypeScript type of the plain interface)
+        let table: Vec<(&str, &str, &str)> = vec![
+            ("s", "String", "string"), ("n1", "u8", "number"), ("n2", "i64", "number"), ("n3", "f32", "number"), ("n4", "usize", "number"), ("b", "bool", "boolean"),
+            ("opt", "Option<String>", "string | null"), ("v", "Vec<u32>", "number[]"), ("hs", "HashSet<String>", "string[]"), ("bs", "BTreeSet<u8>", "number[]"),
+            ("hm", "HashMap<String, u32>", "Record<string, number>"), ("bm", "BTreeMap<String, Vec<bool>>", "Record<string, boolean[]>"),
+            ("t2", "(String, u32)", "[string, number]"), ("t1", "(String,)", "[string]"), ("t3", "(u8, (bool, String), Vec<u8>)", "[number, [boolean, string], number[]]"),
+            ("t1n", "Vec<(u32,)>", "[number][]"), ("ot1", "Option<(Leaf,)>", "[Leaf] | null"),
+            ("sref", "&'static str", "string"), ("ov", "Option<Vec<Leaf>>", "Leaf[] | null"), ("mo", "HashMap<String, Option<Leaf>>", "Record<string, Leaf | null>"),
+            ("vv", "Vec<Vec<Leaf>>", "Leaf[][]"), ("mt", "HashMap<String, (Leaf, u32)>", "Record<string, [Leaf, number]>"), ("leaf", "Leaf", "Leaf"),
+        ];
+        let body: String = table.iter().map(|(f, t, _)| format!("    pub {}: {},\n", f, t)).collect();
+        let returns: Vec<(&str, &str, &str)> = vec![
+            ("r_unit", "()", "void"), ("r_res_unit", "Result<(), String>", "void"), ("r_res_tuple", "Result<(String, HashMap<String, u32>), String>", "[string, Record<string, number>]"),
+            ("r_opt_t1", "Option<(u8,)>", "[number] | null"), ("r_t1", "(String,)", "[string]"), ("r_vec", "Vec<Leaf>", "types.Leaf[]"), ("r_ref", "&'static str", "string"),
+        ];
+        let cmds: String = returns.iter().map(|(n, t, _)| format!("#[tauri::command]\npub fn {}() -> {} {{ todo!() }}\n", n, t)).collect();
+        let src = format!("{}use std::collections::{{HashSet, BTreeSet, BTreeMap}};\n#[derive(Serialize, Deserialize)]\npub struct Leaf {{ pub id: u32 }}\n#[derive(Serialize, Deserialize)]\npub struct Table {{\n{}}}\n#[tauri::command]\npub fn table(t: Table) -> u32 {{ 0 }}\n{}", HDR, body, cmds);
+        let dir = root.join("table/src");
+        write_files(&dir, &[("lib.rs".to_string(), src)]);
+        let none = generate(&dir, &root.join("table/out_none"), "none");
+        let zod = generate(&dir, &root.join("table/out_zod"), "zod");
+        for (f, rust, want) in &table {
+            rep.case("field_types_follow_the_table", &format!("pub {}: {}", f, rust), &|| {
+                let t = none.as_ref().map_err(|e| e.clone())?.get("types.ts").ok_or("no types.ts")?;
+                let head = "export interface Table {";
+                let st = t.find(head).ok_or("Table is not declared")? + head.len();
+                for l in t[st..].lines() {
+                    let l = l.trim();
+                    if l.starts_with('}') { break; }
+                    if let Some(rest) = l.strip_prefix(&format!("{}:", f)).or_else(|| l.strip_prefix(&format!("{}?:", f))) {
+                        let got = rest.trim().trim_end_matches(';').trim();
+                        return if got == *want { Ok(got.to_string()) } else { Err(format!("`{}` is declared as `{}`, serde's JSON for it is described by `{}`", rust, got, want)) };
+                    }
+                }
+                Err(format!("Table has no key {}", f))
+            });
+        }
+        for (mname, res) in [("none", &none), ("zod", &zod)] {
+            for (n, rust, want) in &returns {
+                rep.case("return_types_follow_the_table", &format!("fn {}() -> {} mode={}", n, rust, mname), &|| {
+                    let c = res.as_ref().map_err(|e| e.clone())?.get("commands.ts").ok_or("no commands.ts")?;
+                    let camel = lower_camel(n);
+                    let st = c.find(&format!("export async function {}(", camel)).ok_or(format!("no wrapper {}", camel))?;
+                    let line = c[st..].lines().next().unwrap_or("");
+                    let p = line.rfind("): Promise<").ok_or("no Promise<..> return type")? + "): Promise<".len();
+                    let got = line[p..].trim_end().trim_end_matches('{').trim_end().trim_end_matches('>');
+                    // trim_end_matches removed every trailing '>': compare modulo that
+                    if got == want.trim_end_matches('>') { Ok(got.to_string()) } else { Err(format!("`{}` is returned as `Promise<{}`, expected `Promise<{}>`", rust, got, want)) }
+                });
+            }
+            rep.case("generated_files_are_lexically_wellformed", &format!("project=table mode={}", mname), &|| lexical_wellformed(res.as_ref().map_err(|e| e.clone())?));
+            rep.case("type_references_resolve", &format!("project=table mode={}", mname), &|| references_resolve(res.as_ref().map_err(|e| e.clone())?, &["Leaf", "Table"]));
+        }
+        // C10: a key may be left out in one mode iff it may be left out in the other
+        let opt_fields = ["opt", "ov", "ot1", "s", "v", "mo"];
+        for f in opt_fields {
+            rep.case("both_modes_same_optionality", &format!("Table.{}", f), &|| {
+                let n = none.as_ref().map_err(|e| e.clone())?.get("types.ts").ok_or("no types.ts (none)")?;
+                let z = zod.as_ref().map_err(|e| e.clone())?.get("types.ts").ok_or("no types.ts (zod)")?;
+                let head = "export interface Table {";
+                let st = n.find(head).ok_or("Table is not declared")? + head.len();
+                let plain_opt = n[st..].lines().take_while(|l| !l.trim().starts_with('}')).any(|l| l.trim().starts_with(&format!("{}?:", f)));
+                let sch = zod_field(z, "Table", f).ok_or(format!("TableSchema has no key {}", f))?;
+                let zod_opt = sch.ends_with(".optional()") || sch.ends_with(".nullish()") || sch.contains(".optional().") && sch.ends_with(")");
+                if plain_opt == zod_opt { Ok(format!("{}", plain_opt)) } else { Err(format!("plain mode omittable: {}, zod schema `{}`", plain_opt, sch)) }
+            });
+        }
+    }
+
+    // ============================================================ C18 / C02: a project whose foreign types are covered by type mappings
+    {
+        let src = format!("{}use tauri::Emitter;\nuse tauri::ipc::Channel;\n\
+            #[derive(Serialize, Deserialize, Clone)]\npub struct Account {{ pub id: Uuid, pub seen: Vec<Option<Timestamp>>, pub by_id: HashMap<Uuid, Timestamp>, pub pair: (Uuid, Timestamp), pub owner: Option<Uuid> }}\n\
+            #[tauri::command]\npub fn lookup(id: Uuid, at: Option<Timestamp>, on_tick: Channel<Timestamp>) -> Result<Option<Uuid>, String> {{ Ok(None) }}\n\
+            #[tauri::command]\npub fn accounts(app: tauri::AppHandle, first: Uuid) -> Vec<Account> {{ app.emit(\"account:seen\", first).ok(); vec![] }}\n\
+            #[tauri::command]\npub fn ids(on_id: Channel<Vec<Uuid>>) -> HashMap<Uuid, Vec<Timestamp>> {{ todo!() }}\n\
+            pub fn touch(app: &tauri::AppHandle, when: Option<Timestamp>) {{ app.emit(\"account:touched\", when).ok(); }}\n", HDR);
+        let dir = root.join("mapped/src");
+        write_files(&dir, &[("lib.rs".to_string(), src)]);
+        for mode in ["none", "zod"] {
+            let out = root.join(format!("mapped/out_{}", mode));
+            let _ = fs::remove_dir_all(&out);
+            let mut cfg = GenerateConfig::default();
+            cfg.project_path = dir.to_string_lossy().to_string();
+            cfg.output_path = out.to_string_lossy().to_string();
+            cfg.validation_library = mode.to_string();
+            cfg.type_mappings = Some([("Uuid".to_string(), "string".to_string()), ("Timestamp".to_string(), "number".to_string())].into_iter().collect());
+            let res: Result<BTreeMap<String, String>, String> = generate_from_config(&cfg).map_err(|e| format!("generate_from_config returned Err: {}", e)).and_then(|_| {
+                let mut m = BTreeMap::new();
+                for e in fs::read_dir(&out).map_err(|e| e.to_string())?.flatten() { if e.path().is_file() { m.insert(e.file_name().to_string_lossy().to_string(), fs::read_to_string(e.path()).unwrap_or_default()); } }
+                Ok(m)
+            });
+            rep.case("mapped_names_never_appear", &format!("project=mapped mode={}", mode), &|| {
+                let files = res.as_ref().map_err(|e| e.clone())?;
+                for (f, text) in files {
+                    if !f.ends_with(".ts") { continue; }
+                    for (ln, l) in text.lines().enumerate() {
+                        if l.trim_start().starts_with("//") || l.trim_start().starts_with('*') || l.trim_start().starts_with("/*") { continue; }
+                        for n in ["Uuid", "Timestamp"] {
+                            let mut from = 0;
+                            while let Some(p) = l[from..].find(n) {
+                                let a = from + p; let b = a + n.len();
+                                let before_ok = a == 0 || !l[..a].chars().last().map_or(false, |c| c.is_alphanumeric() || c == '_');
+                                let after_ok = b >= l.len() || !l[b..].chars().next().map_or(false, |c| c.is_alphanumeric() || c == '_');
+                                if before_ok && after_ok { return Err(format!("{}:{} the mapped type {} is referred to by name: `{}`", f, ln + 1, n, l.trim())); }
+                                from = b;
+                            }
+                        }
+                    }
+                }
+                Ok("ok".into())
+            });
+            rep.case("type_references_resolve", &format!("project=mapped mode={}", mode), &|| references_resolve(res.as_ref().map_err(|e| e.clone())?, &["Account"]));
+            rep.case("generated_files_are_lexically_wellformed", &format!("project=mapped mode={}", mode), &|| lexical_wellformed(res.as_ref().map_err(|e| e.clone())?));
         }
     }
     let _ = fs::remove_dir_all(&root);
